@@ -68,6 +68,11 @@ func (h *Harness) feed(ev *Event) {
 	if target == nil {
 		target = h.created
 	}
+	if target != nil && (pk.SYN || pk.FIN || pk.RST || pk.Len > 0) {
+		// (segments without payload and flags are "useless packets" that an
+		// assembler may ignore altogether: they do not count as activity)
+		target.LastFedAt, target.HasFed = ev.At, true
+	}
 	if target != nil && !preEnded && pk.Len > 0 {
 		x := h.sdOf(target, d)
 		for o := pk.Off; o < pk.Off+pk.Len; o++ {
@@ -182,6 +187,10 @@ func Run(c *sim.Ctx, cfg RunCfg, mk func(h *Harness) Assembler) {
 			}
 			h.StartEv = int32(c.Events + 1)
 			h.CutOff = T(ev.At - ev.Age)
+			h.CutOffC = h.CutOff
+			if ev.K == EvFlushTTC {
+				h.CutOffC = T(ev.At - ev.AgeC)
+			}
 			if ev.K == EvFlushTTC && ev.NoT {
 				h.CutOff = time.Time{}
 			}
